@@ -648,3 +648,333 @@ Proof.
   intro H. assert (E : snd (stage0 mo file) = O2err e_archive) by (unfold stage0; cbn [snd]; rewrite H; reflexivity).
   rewrite (open2_pre_err pf mo zd file e_archive); rewrite open_pre_unfold, (lbind_err _ _ _ E); reflexivity.
 Qed.
+
+(* ------------------------------------------------------------------ the largest offset does not matter *)
+Lemma lbind_ext_ok {A B} (x : lres A) (f g : A -> lres B) :
+  (forall a, snd x = O2ok a -> f a = g a) -> lbind x f = lbind x g.
+Proof. intro H. unfold lbind. destruct (snd x) as [a|e|] eqn:E; try reflexivity. rewrite (H a eq_refl). reflexivity. Qed.
+
+Lemma deserialize_mo mo1 mo2 bs : lenN bs <= mo1 -> lenN bs <= mo2 -> deserialize mo1 bs = deserialize mo2 bs.
+Proof.
+  intros H1 H2. destruct (lenN bs <? 8) eqn:E.
+  - rewrite !deserialize_short by lia. reflexivity.
+  - rewrite !deserialize_unfold by lia. cbv zeta.
+    destruct (lenN bs - 8 <? footer_len bs) eqn:E1; [reflexivity|].
+    destruct (mo1 <? lenN bs - 8 - footer_len bs) eqn:E2; [lia|].
+    destruct (mo2 <? lenN bs - 8 - footer_len bs) eqn:E3; [lia|]. reflexivity.
+Qed.
+
+Lemma read_part_data_mo mo1 mo2 file p : p_off p <= mo1 -> p_off p <= mo2 ->
+  read_part_data mo1 file p = read_part_data mo2 file p.
+Proof.
+  intros H1 H2. unfold read_part_data, file_seek_start.
+  destruct (mo1 <? p_off p) eqn:E1; [lia|]. destruct (mo2 <? p_off p) eqn:E2; [lia|]. reflexivity.
+Qed.
+
+Lemma rd_ok_part bs rd sid s i p : rd_ok bs rd -> nthS (r_streams rd) sid = Some s -> nthS (rs_parts s) i = Some p ->
+  p_off p <= lenN bs.
+Proof.
+  intros [_ Hs] E1 E2. rewrite nthS_eq in E1. rewrite nthS_eq in E2. apply nthN_in in E1. apply nthN_in in E2.
+  rewrite Forall_forall in Hs. specialize (Hs s E1). unfold rs_fits in Hs. rewrite Forall_forall in Hs.
+  specialize (Hs p E2). unfold part_fits in Hs. lia.
+Qed.
+
+Lemma get_part_by_id_mo mo1 mo2 bs rd sid pid : rd_ok bs rd -> lenN bs <= mo1 -> lenN bs <= mo2 ->
+  get_part_by_id mo1 rd sid pid = get_part_by_id mo2 rd sid pid.
+Proof.
+  intros H H1 H2. unfold get_part_by_id. destruct (nthS (r_streams rd) sid) as [s|] eqn:E1; [|reflexivity].
+  destruct (nthS (rs_parts s) pid) as [p|] eqn:E2; [|reflexivity].
+  pose proof (rd_ok_part _ _ _ _ _ _ H E1 E2). rewrite (read_part_data_mo mo1 mo2) by lia. reflexivity.
+Qed.
+
+Lemma get_part_mo mo1 mo2 bs rd sid : rd_ok bs rd -> lenN bs <= mo1 -> lenN bs <= mo2 ->
+  get_part mo1 rd sid = get_part mo2 rd sid.
+Proof.
+  intros H H1 H2. unfold get_part. destruct (nthS (r_streams rd) sid) as [s|] eqn:E1; [|reflexivity].
+  destruct (nthS (rs_parts s) (rs_cur s)) as [p|] eqn:E2; [|reflexivity].
+  pose proof (rd_ok_part _ _ _ _ _ _ H E1 E2). rewrite (read_part_data_mo mo1 mo2) by lia. reflexivity.
+Qed.
+
+Theorem open2_max_off_irrelevant_proof : forall pf mo1 mo2 zd file, lenN file <= mo1 -> lenN file <= mo2 ->
+  open2 pf mo1 zd file = open2 pf mo2 zd file.
+Proof.
+  intros pf mo1 mo2 zd file H1 H2. rewrite !open2_unfold. f_equal.
+  rewrite !open_pre_unfold. assert (S0 : stage0 mo1 file = stage0 mo2 file) by (unfold stage0; rewrite (deserialize_mo mo1 mo2) by assumption; reflexivity).
+  rewrite S0. apply lbind_ext_ok. intros rd Hrd. destruct (stage0_props mo2 file) as (_ & _ & R0). destruct (R0 rd Hrd) as [RD _].
+  assert (LP : load_params mo1 rd = load_params mo2 rd).
+  { unfold load_params. destruct (get_stream_id rd R_NAME_PARAMS) as [sid|]; [|reflexivity].
+    rewrite (get_part_by_id_mo mo1 mo2 file) by assumption. reflexivity. }
+  rewrite LP. apply lbind_ext. intro prm. apply lbind_ext. intro sid.
+  assert (LS : load_samples_stream mo1 zd rd sid = load_samples_stream mo2 zd rd sid).
+  { unfold load_samples_stream. rewrite (get_part_mo mo1 mo2 file) by assumption. reflexivity. }
+  rewrite LS. reflexivity.
+Qed.
+
+(* ------------------------------------------------------------------ the names must be in the file *)
+Lemma prefixb_app p post : prefixb p (p ++ post) = true.
+Proof. induction p as [|a p IH]; cbn [prefixb app]; [reflexivity|]. rewrite N.eqb_refl, IH. reflexivity. Qed.
+
+Lemma infixb_intro p pre post : infixb p (pre ++ p ++ post) = true.
+Proof.
+  induction pre as [|a pre IH]; cbn [app].
+  - destruct (p ++ post) eqn:E; cbn [infixb]; rewrite <- E, prefixb_app; reflexivity.
+  - cbn [infixb]. rewrite IH. apply orb_true_r.
+Qed.
+
+Definition suffix_of (c l : list N) : Prop := exists pre, l = pre ++ c.
+Lemma suffix_refl l : suffix_of l l.
+Proof. exists []. reflexivity. Qed.
+Lemma suffix_trans a b c : suffix_of a b -> suffix_of b c -> suffix_of a c.
+Proof. intros [p1 ->] [p2 ->]. exists (p2 ++ p1). rewrite app_assoc. reflexivity. Qed.
+Lemma suffix_cons x l : suffix_of l (x :: l).
+Proof. exists [x]. reflexivity. Qed.
+
+Lemma vi_read_be_suffix n : forall acc l v r, vi_read_be n acc l = Some (v, r) -> suffix_of r l.
+Proof.
+  induction n as [|n IH]; intros acc l v r; cbn [vi_read_be].
+  - intro H. inversion H; subst. apply suffix_refl.
+  - destruct l as [|b t]; [discriminate|]. intro H. apply IH in H. eapply suffix_trans; [exact H | apply suffix_cons].
+Qed.
+
+Lemma read_varint_suffix l v k r : read_varint l = Ok (v, k, r) -> suffix_of r l.
+Proof.
+  unfold read_varint. destruct l as [|nb t]; [discriminate|]. destruct (nb =? 0).
+  - intro H. inversion H; subst. apply suffix_cons.
+  - destruct (vi_read_be (N.to_nat nb) 0 t) as [[v' r']|] eqn:E; [|discriminate]. intro H. inversion H; subst.
+    apply vi_read_be_suffix in E. eapply suffix_trans; [exact E | apply suffix_cons].
+Qed.
+
+Lemma read_parts_suffix fuel : forall n fs cur ps c, read_parts fuel n fs cur = Ok (ps, c) -> suffix_of c cur.
+Proof.
+  induction fuel as [|f IH]; intros n fs cur ps c; cbn [read_parts]; destruct (n =? 0);
+    try (intro H; inversion H; subst; apply suffix_refl).
+  destruct (read_varint cur) as [[[off k1] c1]| |] eqn:E1; cbn [obnd]; try discriminate.
+  destruct (read_varint c1) as [[[sz k2] c2]| |] eqn:E2; cbn [obnd]; try discriminate.
+  destruct (add_u64 off sz); [|discriminate]. destruct (fs <? n0); [discriminate|].
+  destruct (read_parts f (n - 1) fs c2) as [[ps' c3]| |] eqn:E3; cbn [obnd]; try discriminate.
+  intro H. inversion H; subst. apply IH in E3. apply read_varint_suffix in E1. apply read_varint_suffix in E2.
+  eapply suffix_trans; [exact E3|]. eapply suffix_trans; eassumption.
+Qed.
+
+(* a name made of bytes below 128 is in the directory as it is, followed by its terminator *)
+Lemma read_name_ascii cur : forall nm r, read_name cur = Some (nm, r) -> Forall (fun b => b < 128) nm ->
+  cur = nm ++ 0 :: r.
+Proof.
+  induction cur as [|b t IH]; intros nm r; cbn [read_name]; [discriminate|].
+  change ar_name_term_r with 0. destruct (b =? 0) eqn:E.
+  - intros H _. inversion H; subst. apply N.eqb_eq in E. subst. reflexivity.
+  - destruct (read_name t) as [[nm' r']|] eqn:E2; [|discriminate]. intros H F. inversion H; subst. clear H.
+    unfold char_utf8 in F |- *. destruct (b <? 128) eqn:E3.
+    + cbn [app] in *. inversion F; subst. rewrite (IH _ _ eq_refl H2). reflexivity.
+    + cbn [app] in F. inversion F; subst. lia.
+Qed.
+
+Lemma read_streams_names fuel : forall n fs cur sts, read_streams fuel n fs cur = Ok sts ->
+  forall s, In s sts -> Forall (fun b => b < 128) (rs_name s) -> exists c r, suffix_of c cur /\ c = rs_name s ++ 0 :: r.
+Proof.
+  induction fuel as [|f IH]; intros n fs cur sts; cbn [read_streams]; destruct (n =? 0);
+    try (intro H; inversion H; subst; intros s []).
+  destruct (read_name cur) as [[nm c1]|] eqn:E0; [|discriminate].
+  destruct (read_varint c1) as [[[np k1] c2]| |] eqn:E1; cbn [obnd]; try discriminate.
+  destruct (read_varint c2) as [[[raw k2] c3]| |] eqn:E2; cbn [obnd]; try discriminate.
+  destruct (read_parts (S (length c3)) np fs c3) as [[ps c4]| |] eqn:E3; cbn [obnd]; try discriminate.
+  destruct (read_streams f (n - 1) fs c4) as [rest| |] eqn:E4; cbn [obnd]; try discriminate.
+  intro H. inversion H; subst. clear H. intros s [<- | Hin] Hs.
+  - cbn [rs_name] in *. exists cur, c1. split; [apply suffix_refl | apply read_name_ascii; assumption].
+  - destruct (IH _ _ _ _ E4 s Hin Hs) as (c & r & S & Ec). exists c, r. split; [|exact Ec].
+    eapply suffix_trans; [exact S|]. apply read_parts_suffix in E3. apply read_varint_suffix in E2. apply read_varint_suffix in E1.
+    eapply suffix_trans; [exact E3|]. eapply suffix_trans; [exact E2|]. eapply suffix_trans; [exact E1|].
+    assert (X : exists pre, cur = pre ++ c1).
+    { clear - E0. revert nm c1 E0. induction cur as [|b t IHc]; intros nm c1; cbn [read_name]; [discriminate|].
+      destruct (b =? ar_name_term_r).
+      - intro H. inversion H; subst. exists [b]. reflexivity.
+      - destruct (read_name t) as [[nm' r']|] eqn:E; [|discriminate]. intro H. inversion H; subst.
+        destruct (IHc _ _ eq_refl) as [pre ->]. exists (b :: pre). reflexivity. }
+    exact X.
+Qed.
+
+Lemma map_get_build_map_in nm : forall sts i m v, map_get nm (build_map i sts m) = Some v ->
+  (exists s, In s sts /\ rs_name s = nm) \/ map_get nm m = Some v.
+Proof.
+  induction sts as [|s r IH]; intros i m v; cbn [build_map]; [intro H; right; exact H|].
+  intro H. apply IH in H. destruct H as [(s' & Hin & Hn) | H].
+  - left. exists s'. split; [right; exact Hin | exact Hn].
+  - cbn [map_get] in H. destruct (name_eqb nm (rs_name s)) eqn:E.
+    + left. exists s. split; [left; reflexivity | symmetry; apply name_eqb_eq; exact E].
+    + right. exact H.
+Qed.
+
+Lemma deserialize_ok_inv mo bs rd : snd (deserialize mo bs) = Ok rd ->
+  8 <= lenN bs /\ footer_len bs <= lenN bs - 8 /\
+  exists sts, parse_footer (lenN bs - 8 - footer_len bs) (firstnN (footer_len bs) (skipnN (lenN bs - 8 - footer_len bs) bs)) = Ok sts /\
+              rd = mkR bs sts (build_map 0 sts []).
+Proof.
+  intro H. destruct (lenN bs <? 8) eqn:E; [rewrite deserialize_short in H by lia; discriminate|].
+  rewrite deserialize_unfold in H by lia. cbv zeta in H.
+  destruct (lenN bs - 8 <? footer_len bs) eqn:E1; [discriminate|].
+  destruct (mo <? lenN bs - 8 - footer_len bs); [discriminate|]. cbn [snd] in H.
+  destruct (parse_footer _ _) as [sts| |] eqn:P; cbn [obnd] in H; try discriminate. inversion H; subst.
+  split; [lia|]. split; [lia|]. exists sts. split; reflexivity.
+Qed.
+
+(* the directory region that open trusts: the [footer_len] bytes before the trailing length field *)
+Definition footer_region (bs : list N) : list N :=
+  firstnN (footer_len bs) (skipnN (lenN bs - 8 - footer_len bs) bs).
+
+Lemma stream_name_in_footer mo bs rd nm sid : snd (deserialize mo bs) = Ok rd -> Forall (fun b => b < 128) nm ->
+  get_stream_id rd nm = Some sid -> infixb (nm ++ [0]) (footer_region bs) = true.
+Proof.
+  intros H F G. apply deserialize_ok_inv in H. destruct H as (_ & _ & sts & P & ->). fold (footer_region bs) in P.
+  unfold get_stream_id in G. cbn [r_map] in G. apply map_get_build_map_in in G. destruct G as [(s & Hin & Hn) | G]; [|discriminate].
+  unfold parse_footer in P. destruct (read_varint (footer_region bs)) as [[[ns k] cur]| |] eqn:E; cbn [obnd] in P; try discriminate.
+  subst nm. destruct (read_streams_names _ _ _ _ _ P s Hin F) as (c & r & S & Ec).
+  apply read_varint_suffix in E. destruct (suffix_trans _ _ _ S E) as [pre Epre]. rewrite Epre, Ec.
+  replace (pre ++ rs_name s ++ 0 :: r) with (pre ++ (rs_name s ++ [0]) ++ r) by (rewrite <- (app_assoc (rs_name s)); reflexivity).
+  apply infixb_intro.
+Qed.
+
+Lemma infixb_mono p : forall l pre post, infixb p l = true -> infixb p (pre ++ l ++ post) = true.
+Proof.
+  assert (A : forall l, infixb p l = true -> exists a b, l = a ++ p ++ b).
+  { induction l as [|x l IH]; cbn [infixb].
+    - rewrite orb_false_r. intro H. destruct p; [|discriminate]. exists [], []. reflexivity.
+    - intro H. apply orb_true_iff in H. destruct H as [H | H].
+      + exists []. cbn [app]. clear IH. revert x l H. induction p as [|a p IHp]; intros x l H.
+        * exists (x :: l). reflexivity.
+        * cbn [prefixb] in H. apply andb_true_iff in H. destruct H as [H1 H2]. apply N.eqb_eq in H1. subst.
+          destruct l as [|y l]; [destruct p; [exists []; reflexivity | discriminate]|].
+          destruct p as [|a' p]; [exists (y :: l); reflexivity|].
+          destruct (IHp y l H2) as [b Hb]. exists b. cbn [app]. rewrite Hb. reflexivity.
+      + destruct (IH H) as (a & b & ->). exists (x :: a), b. reflexivity. }
+  intros l pre post H. destruct (A l H) as (a & b & ->).
+  replace (pre ++ (a ++ p ++ b) ++ post) with ((pre ++ a) ++ p ++ (b ++ post)) by (rewrite <- !app_assoc; reflexivity).
+  apply infixb_intro.
+Qed.
+
+Lemma footer_region_infix bs : exists pre post, bs = pre ++ footer_region bs ++ post.
+Proof.
+  unfold footer_region. set (o := lenN bs - 8 - footer_len bs). set (n := footer_len bs).
+  exists (firstnN o bs), (skipnN n (skipnN o bs)). rewrite firstnN_skipnN. rewrite firstnN_skipnN. reflexivity.
+Qed.
+
+Lemma required_ascii nm : In nm required_names -> Forall (fun b => b < 128) nm.
+Proof.
+  unfold required_names. intros [<- | [<- | [<- | [<- | []]]]]; vm_compute; repeat constructor.
+Qed.
+
+Lemma open_pre_needs_names mo zd file st nm : snd (open_pre mo zd file) = O2ok st -> In nm required_names ->
+  infixb (nm ++ [0]) (footer_region file) = true.
+Proof.
+  intros H Hin. apply open_pre_ok_iff_proof in H.
+  destruct H as (rd & sidp & pdata & pmeta & sids & frame & raw & H0 & P1 & _ & _ & _ & _ & Q1 & Q2 & Q3 & _).
+  pose proof (required_ascii nm Hin) as F. unfold required_names in Hin.
+  destruct Hin as [<- | [<- | [<- | [<- | []]]]].
+  - eapply stream_name_in_footer; eassumption.
+  - eapply stream_name_in_footer; eassumption.
+  - destruct (get_stream_id rd R_NAME_COLL_1) as [x|] eqn:E; [|contradiction]. eapply stream_name_in_footer; eassumption.
+  - destruct (get_stream_id rd R_NAME_COLL_2) as [x|] eqn:E; [|contradiction]. eapply stream_name_in_footer; eassumption.
+Qed.
+
+(* anything but a handle from open_pre is an error value of open2, the same in both profiles *)
+Lemma open2_not_pre_err pf mo zd file : (forall st, snd (open_pre mo zd file) <> O2ok st) ->
+  exists e, snd (open2 pf mo zd file) = O2err e.
+Proof.
+  intro H. destruct (snd (open_pre mo zd file)) as [st|e|] eqn:E.
+  - exfalso. exact (H st eq_refl).
+  - exists e. rewrite (open2_pre_err pf mo zd file e E). reflexivity.
+  - exfalso. exact (open_pre_safe _ _ _ E).
+Qed.
+
+Theorem open2_requires_names_proof : forall pf max_off zd file,
+  (exists nm, In nm required_names /\
+     (infixb (nm ++ [0]) (footer_region file) = false \/ infixb (nm ++ [0]) file = false)) ->
+  exists e, snd (open2 pf max_off zd file) = O2err e.
+Proof.
+  intros pf mo zd file (nm & Hin & Hno). apply open2_not_pre_err. intros st H.
+  pose proof (open_pre_needs_names mo zd file st nm H Hin) as I. destruct Hno as [Hno | Hno]; [congruence|].
+  destruct (footer_region_infix file) as (pre & post & E). rewrite E in Hno.
+  rewrite (infixb_mono _ _ pre post I) in Hno. discriminate.
+Qed.
+
+Theorem prefix_rejected_open2_partial_proof : forall pf bs n max_off zd, n <= lenN bs ->
+  let p := firstnN n bs in
+  (n < 8 \/ n - 8 < le_value (skipnN (n - 8) p)) \/
+  (exists nm, In nm required_names /\ infixb (nm ++ [0]) p = false) \/
+  (exists rd, snd (deserialize max_off p) = Ok rd /\
+     (get_stream_id rd R_NAME_PARAMS = None \/
+      (exists sid, get_stream_id rd R_NAME_PARAMS = Some sid /\ get_num_parts rd sid <> 1) \/
+      get_stream_id rd R_NAME_COLL_0 = None \/ get_stream_id rd R_NAME_COLL_1 = None \/
+      get_stream_id rd R_NAME_COLL_2 = None)) ->
+  exists e, snd (open2 pf max_off zd p) = O2err e.
+Proof.
+  intros pf bs n mo zd Hn p [H | [H | H]].
+  - exists e_archive. unfold p. rewrite open2_archive_err; [reflexivity|].
+    rewrite (prefix_rejected_partial_proof bs n mo Hn H). reflexivity.
+  - apply open2_requires_names_proof. destruct H as (nm & Hin & Hno). exists nm. split; [assumption | right; assumption].
+  - destruct H as (rd & Hrd & Hc). apply open2_not_pre_err. intros st Hst. apply open_pre_ok_iff_proof in Hst.
+    destruct Hst as (rd' & sidp & pdata & pmeta & sids & frame & raw & H0 & P1 & P2 & _ & _ & _ & Q1 & Q2 & Q3 & _).
+    rewrite Hrd in H0. inversion H0; subst rd'.
+    destruct Hc as [C | [(sid & C1 & C2) | [C | [C | C]]]]; try congruence.
+Qed.
+
+(* ------------------------------------------------------------------ the complete file of any writer history opens (with C13) *)
+Lemma nthN_map {A B} (f : A -> B) l i : nthN (map f l) i = option_map f (nthN l i).
+Proof.
+  unfold nthN. generalize (N.to_nat i). intro n. revert l. induction n as [|n IH]; intros [|x l]; cbn; try reflexivity. apply IH.
+Qed.
+
+Lemma sp_view_nonempty d m : d <> [] -> sp_view (d, m) = (d, m).
+Proof. intro H. unfold sp_view. cbn [fst]. destruct d; [contradiction | reflexivity]. Qed.
+
+Theorem open2_complete_archive_ok_proof : forall ops max_off zd pf, Forall wop_wf ops ->
+  let w := fst (wrun w_init ops) in
+  let s := fst (sp_run sp_init ops) in
+  lenN (close w) < two64 -> lenN (close w) <= max_off ->
+  forall sidp pdata pmeta sids frame raw rest v ns,
+  sp_find R_NAME_PARAMS 0 (sp_streams s) = Some sidp ->
+  option_map ss_parts (nthN (sp_streams s) sidp) = Some [(pdata, pmeta)] -> 12 <= lenN pdata ->
+  sp_find R_NAME_COLL_0 0 (sp_streams s) = Some sids ->
+  option_map ss_parts (nthN (sp_streams s) sids) = Some ((frame, raw) :: rest) -> frame <> [] ->
+  sp_find R_NAME_COLL_1 0 (sp_streams s) <> None -> sp_find R_NAME_COLL_2 0 (sp_streams s) <> None ->
+  zd frame = Some v -> lenN v = raw ->
+  snd (deser_sample_names_p pf v) = O2ok ns ->
+  exists h, snd (open2 pf max_off zd (close w)) = O2ok h /\ h_samples h = ns /\
+            (h_segment_size h, h_kmer_length h, h_min_match_len h) = params_fields pdata.
+Proof.
+  intros ops mo zd pf Hwf w s H64 Hmax sidp pdata pmeta sids frame raw rest v ns P1 P2 P3 Q1 Q2 Q3 Q4 Q5 Z1 Z2 D.
+  destruct (container_refines_spec_proof ops mo Hwf H64 Hmax) as (_ & rd & R1 & R2 & R3 & R4).
+  fold w in R1. fold s in R2, R3, R4.
+  assert (PD : pdata <> []) by (intro X; subst pdata; change (lenN (@nil N)) with 0 in P3; lia).
+  assert (NP : get_num_parts rd sidp = 1).
+  { unfold get_num_parts. rewrite nthS_eq.
+    assert (X : nthN (directory rd) sidp = nthN (sp_directory s) sidp) by (rewrite R2; reflexivity).
+    unfold directory, sp_directory in X. rewrite !nthN_map in X.
+    destruct (nthN (sp_streams s) sidp) as [ss|]; cbn [option_map] in P2, X; [|discriminate].
+    destruct (nthN (r_streams rd) sidp) as [rs|]; cbn [option_map] in X; [|discriminate].
+    inversion X. inversion P2. rewrite H2 in *. rewrite H3. reflexivity. }
+  assert (GP : snd (get_part_by_id mo rd sidp 0) = Ok (Some (pdata, pmeta))).
+  { specialize (R4 [RById sidp 0]). cbn [rrun rstep map snd sp_rrun sp_rstep] in R4.
+    unfold sp_read_init in R4. rewrite nthS_eq, nthN_map in R4.
+    destruct (nthN (sp_streams s) sidp) as [ss|]; cbn [option_map] in P2, R4; [|discriminate].
+    inversion P2 as [P2']. rewrite P2' in R4. cbn [nthS lenN length N.of_nat] in R4.
+    change (nthS [(pdata, pmeta)] 0) with (Some (pdata, pmeta)) in R4. cbn iota beta in R4.
+    inversion R4 as [R4']. rewrite R4'. rewrite sp_view_nonempty by assumption. reflexivity. }
+  assert (GS : snd (snd (get_part mo rd sids)) = Ok (Some (frame, raw))).
+  { specialize (R4 [RGet sids]). cbn [rrun rstep map sp_rrun sp_rstep] in R4.
+    unfold sp_read_init in R4. rewrite nthS_eq, nthN_map in R4.
+    destruct (nthN (sp_streams s) sids) as [ss|]; cbn [option_map] in Q2, R4; [|discriminate].
+    inversion Q2 as [Q2']. rewrite Q2' in R4.
+    change (nthS ((frame, raw) :: rest) 0) with (Some (frame, raw)) in R4. cbn iota beta in R4.
+    destruct (get_part mo rd sids) as [rd' x]. cbn [map snd] in *.
+    inversion R4 as [R4']. rewrite R4'. rewrite sp_view_nonempty by assumption. reflexivity. }
+  set (st := mkPre (fst (fst (params_fields pdata))) (snd (fst (params_fields pdata))) (snd (params_fields pdata))
+                   (fst (get_part mo rd sids)) v).
+  assert (PRE : snd (open_pre mo zd (close w)) = O2ok st).
+  { apply open_pre_ok_iff_proof. exists rd, sidp, pdata, pmeta, sids, frame, raw.
+    rewrite R1. cbn [snd]. rewrite !R3. unfold st. cbn [ps_segment_size ps_kmer_length ps_min_match_len ps_reader ps_stream].
+    repeat split; try assumption. }
+  eexists. split; [apply (open2_ok_intro pf mo zd (close w) st ns PRE D)|].
+  unfold h_samples. cbn [h_coll h_segment_size h_kmer_length h_min_match_len]. rewrite samples_of_names.
+  split; [reflexivity|]. unfold st. cbn [ps_segment_size ps_kmer_length ps_min_match_len].
+  destruct (params_fields pdata) as [[a b] c]. reflexivity.
+Qed.
